@@ -238,6 +238,18 @@ static void body()
                 if (ok) expect(op.name, s, args, got, want);
                 vrt::count("sep.calls");
                 vrt::count("sep.form.cstr");
+                args = sfmt("sep=%s ci=%d form=const char8_t*", show(sep).c_str(), ci);
+                const char8_t *c8 = reinterpret_cast<const char8_t *>(csep.data());
+                ok = call(op.name, s, args, [&]() -> ST::string {
+                    switch (op.which) {
+                    case 0: return st->before_first(c8, cs);
+                    case 1: return st->after_first(c8, cs);
+                    case 2: return st->before_last(c8, cs);
+                    default: return st->after_last(c8, cs);
+                    }
+                }, got);
+                if (ok) expect(op.name, s, args, got, want);
+                vrt::count("sep.calls");
             }
             if (char_ok) {
                 char ch = sep[0];
